@@ -45,6 +45,42 @@ fn near(a: f64, b: f64, tol: f64) -> bool {
 fn near_v(a: &[f64], b: &[f64], tol: f64) -> bool {
     a.len() == b.len() && a.iter().zip(b).all(|(x, y)| near(*x, *y, tol))
 }
+// ---------------------------------------------------------------- outcome counters (coverage floors)
+//
+// A case's closure calls `tag("ok:...")` when it REACHED the point the tag names (a fit that succeeded, a
+// batch whose assignment was judged, a query whose margin was large enough ...).  The tags of a case that
+// ran to completion are added to the distribution; `check` compares them with the baseline of the
+// unchanged tree (conf "floors"), so an implementation that stops reaching what the correspondence is
+// claimed to cover (every fit an error, every batch an undecidable tie, ...) is reported.
+thread_local! {
+    static TAGS: std::cell::RefCell<Vec<String>> = const { std::cell::RefCell::new(Vec::new()) };
+}
+fn tag(t: &str) {
+    TAGS.with(|v| v.borrow_mut().push(t.to_string()));
+}
+fn flush_tags(em: &mut Em, panics_before: u64) {
+    let tags: Vec<String> = TAGS.with(|v| v.borrow_mut().drain(..).collect());
+    if em.panics == panics_before {
+        for t in tags {
+            em.count(&t);
+        }
+    }
+}
+/// `em.case_valid` + outcome tags
+fn case_t(em: &mut Em, op: String, class: &str, f: impl FnOnce(&mut Ctx) -> String) {
+    TAGS.with(|v| v.borrow_mut().clear());
+    let before = em.panics;
+    em.case_valid(op, class, f);
+    flush_tags(em, before);
+}
+/// `em.case` + outcome tags
+fn case_u(em: &mut Em, op: String, f: impl FnOnce(&mut Ctx) -> String) {
+    TAGS.with(|v| v.borrow_mut().clear());
+    let before = em.panics;
+    em.case(op, f);
+    flush_tags(em, before);
+}
+
 /// per-class statistics: (count, prior, first vector, second vector)
 type NbState = BTreeMap<usize, (usize, f64, Vec<f64>, Vec<f64>)>;
 
@@ -380,6 +416,10 @@ fn op_gnb(em: &mut Em, h: &Hist, p: usize, vs: f64) {
                 return "err".to_string();
             }
         };
+        tag("ok:gnb:fitted");
+        if h.len() > 1 {
+            tag(if vs > 0.0 { "ok:gnb:fitted:multi_batch:smoothing" } else { "ok:gnb:fitted:multi_batch:no_smoothing" });
+        }
         let (rows, labels) = concat(h);
         let want = gnb_textbook(&rows, &labels, p, vs);
         let params = GaussianNb::<f64, usize>::params().var_smoothing(vs).check().unwrap();
@@ -390,9 +430,9 @@ fn op_gnb(em: &mut Em, h: &Hist, p: usize, vs: f64) {
         format!("ok {}", states.iter().map(|s| show_state(s, "th", "sg")).collect::<Vec<_>>().join(" "))
     };
     if valid {
-        em.case_valid(op, "gnb", body)
+        case_t(em, op, "gnb", body)
     } else {
-        em.case(op, body)
+        case_u(em, op, body)
     }
 }
 
@@ -444,11 +484,13 @@ fn pred_oracle(ctx: &mut Ctx, kind: &str, eq_class: &str, qs: &Rows, inc_pred: &
             min_margin = mr;
         }
         if m > min_rel {
+            tag(&format!("ok:pred_judged:{}", &kind[..3]));
             ctx.require(inc_pred[i] == bc, "predict_is_argmax_posterior", kind, || format!("query {:?}: predicted {}, posterior of the model's own statistics is maximal at {} (relative margin {})", q, inc_pred[i], bc, m));
         }
         if let Some(ts) = text_scores {
             let (tc, _, tm) = best(&ts(q));
             if tm > min_rel {
+                tag(&format!("ok:pred_vs_textbook_judged:{}", &kind[..3]));
                 if let Some(bp) = batch_pred {
                     ctx.require(bp[i] == tc, "batch_predict_is_textbook_argmax", kind, || format!("query {:?}: batch model predicts {}, textbook posterior maximal at {}", q, bp[i], tc));
                 }
@@ -461,11 +503,12 @@ fn pred_oracle(ctx: &mut Ctx, kind: &str, eq_class: &str, qs: &Rows, inc_pred: &
 
 fn op_gnb_pred(em: &mut Em, h: &Hist, p: usize, vs: f64, qs: &Rows) {
     let op = format!("gnb_pred vs={} p={} x={} y={} q={}", hex64(vs), p, hist_x(h), hist_y(h), list2(qs.iter().map(|x| x.iter()), |x| hex64(*x)));
-    em.case_valid(op, "gnb_pred", |ctx| {
+    case_t(em, op, "gnb_pred", |ctx| {
         let (states, model) = gnb_run(h, p, vs).expect("valid history");
         let model = model.unwrap();
         let q = arr2(qs, p);
         let inc_pred = model.predict(&q).to_vec();
+        tag("ok:gnb_pred:predicted");
         let (rows, labels) = concat(h);
         let params = GaussianNb::<f64, usize>::params().var_smoothing(vs).check().unwrap();
         let ds = Dataset::new(arr2(&rows, p), Array1::from(labels.clone()));
@@ -489,7 +532,7 @@ fn op_gnb_var(em: &mut Em, h: &Hist, p: usize, vs: f64, qs: &Rows, f32_: bool, l
     let kind = format!("gnb_var:{}:{}:{}{}", if f32_ { "f32" } else { "f64" }, labname, LAYOUTS[layout], if real { ":real" } else { "" });
     let op = format!("#gnb_var f={} lab={} layout={} vs={} p={} x={} y={} q={}", if f32_ { 32 } else { 64 }, labname, LAYOUTS[layout], hex64(vs), p, hist_x(h), hist_y(h), list2(qs.iter().map(|x| x.iter()), |x| hex64(*x)));
     em.count(&format!("variant:{}", kind));
-    em.case_valid(op, &kind, |ctx| {
+    case_t(em, op, &kind, |ctx| {
         let pos = |st: &NbState| st.values().all(|(_, _, _, sg)| sg.iter().all(|v| *v > 0.0 && v.is_finite()));
         let (states, pred) = match (f32_, lab) {
             (false, 0) => gnb_variant::<f64, usize>(h, p, vs, layout, &distinct, qs, &pos),
@@ -501,6 +544,7 @@ fn op_gnb_var(em: &mut Em, h: &Hist, p: usize, vs: f64, qs: &Rows, f32_: bool, l
         };
         // f32: var_smoothing itself is rounded to f32 (1e-9 is not representable); the oracle uses the rounded value
         let vs_eff = if f32_ { vs as f32 as f64 } else { vs };
+        tag(&format!("ok:gnb_var:{}:{}:{}", if f32_ { "f32" } else { "f64" }, labname, LAYOUTS[layout]));
         gnb_oracle(ctx, h, p, vs_eff, &states, &kind, if f32_ { T32 } else { T64 });
         let _ = real;
         let last = states.last().unwrap().clone();
@@ -560,8 +604,30 @@ fn mnb_oracle(ctx: &mut Ctx, h: &Hist, p: usize, alpha: f64, states: &[NbState],
 }
 fn op_mnb(em: &mut Em, h: &Hist, p: usize, alpha: f64) {
     let op = format!("mnb alpha={} p={} x={} y={}", hex64(alpha), p, hist_x(h), hist_y(h));
-    em.case_valid(op, "mnb", |ctx| {
-        let (states, _) = mnb_run(h, p, alpha).expect("valid history");
+    // the multinomial `fit_with` has no error path: an empty batch is accepted and changes nothing (the
+    // property quantifies over non-empty batches; such histories are compared with the model, a panic there
+    // is not an oracle failure)
+    let valid = h.iter().all(|(r, _)| !r.is_empty());
+    let body = |ctx: &mut Ctx| {
+        let (states, _) = match mnb_run(h, p, alpha) {
+            Ok(x) => x,
+            Err(e) => {
+                ctx.require(!valid, "fit_succeeds", "mnb", || format!("fit_with returned an error on a valid history: {}", e));
+                return "err".to_string();
+            }
+        };
+        tag("ok:mnb:fitted");
+        if h.len() > 1 {
+            tag("ok:mnb:fitted:multi_batch");
+        }
+        if !valid {
+            tag("ok:mnb:fitted:with_empty_batch");
+            for i in 1..h.len() {
+                if h[i].0.is_empty() {
+                    ctx.require(states[i] == states[i - 1], "function_of_history", "mnb:empty_batch", || format!("an empty batch changed the model: {:?} -> {:?}", states[i - 1], states[i]));
+                }
+            }
+        }
         let (rows, labels) = concat(h);
         let want = mnb_textbook(&rows, &labels, p, alpha);
         let params = MultinomialNb::<f64, usize>::params().alpha(alpha).check().unwrap();
@@ -570,15 +636,21 @@ fn op_mnb(em: &mut Em, h: &Hist, p: usize, alpha: f64) {
         cmp_states(ctx, "single fit on the whole data", &batch, &want, "mnb:batch", "log_prob", "mnb:batch", true, T64);
         mnb_oracle(ctx, h, p, alpha, &states, "mnb", T64);
         format!("ok {}", states.iter().map(|s| show_state(s, "fc", "lp")).collect::<Vec<_>>().join(" "))
-    });
+    };
+    if valid {
+        case_t(em, op, "mnb", body)
+    } else {
+        case_u(em, op, body)
+    }
 }
 fn op_mnb_pred(em: &mut Em, h: &Hist, p: usize, alpha: f64, qs: &Rows) {
     let op = format!("mnb_pred alpha={} p={} x={} y={} q={}", hex64(alpha), p, hist_x(h), hist_y(h), list2(qs.iter().map(|x| x.iter()), |x| hex64(*x)));
-    em.case_valid(op, "mnb_pred", |ctx| {
+    case_t(em, op, "mnb_pred", |ctx| {
         let (states, model) = mnb_run(h, p, alpha).expect("valid history");
         let model = model.unwrap();
         let q = arr2(qs, p);
         let inc_pred = model.predict(&q).to_vec();
+        tag("ok:mnb_pred:predicted");
         let (rows, labels) = concat(h);
         let params = MultinomialNb::<f64, usize>::params().alpha(alpha).check().unwrap();
         let ds = Dataset::new(arr2(&rows, p), Array1::from(labels.clone()));
@@ -596,7 +668,7 @@ fn op_mnb_var(em: &mut Em, h: &Hist, p: usize, alpha: f64, qs: &Rows, f32_: bool
     let kind = format!("mnb_var:{}:{}:{}{}", if f32_ { "f32" } else { "f64" }, labname, LAYOUTS[layout], if real { ":real" } else { "" });
     let op = format!("#mnb_var f={} lab={} layout={} alpha={} p={} x={} y={} q={}", if f32_ { 32 } else { 64 }, labname, LAYOUTS[layout], hex64(alpha), p, hist_x(h), hist_y(h), list2(qs.iter().map(|x| x.iter()), |x| hex64(*x)));
     em.count(&format!("variant:{}", kind));
-    em.case_valid(op, &kind, |ctx| {
+    case_t(em, op, &kind, |ctx| {
         let (rows, labels) = concat(h);
         let text = mnb_textbook(&rows, &labels, p, alpha);
         let defined = |st: &NbState| qs.iter().all(|q| scores_defined(&mnb_jll(st, q)) && scores_defined(&mnb_jll(&text, q)));
@@ -608,6 +680,7 @@ fn op_mnb_var(em: &mut Em, h: &Hist, p: usize, alpha: f64, qs: &Rows, f32_: bool
             (true, 1) => mnb_variant::<f32, String>(h, p, alpha, layout, &distinct, qs, &defined),
             (true, _) => mnb_variant::<f32, bool>(h, p, alpha, layout, &distinct, qs, &defined),
         };
+        tag(&format!("ok:mnb_var:{}:{}:{}", if f32_ { "f32" } else { "f64" }, labname, LAYOUTS[layout]));
         // f32 log-frequencies: two f32 logarithms and a subtraction of values <= ~10: 1e-5 is > 10 roundings
         mnb_oracle(ctx, h, p, alpha, &states, &kind, if f32_ { Tols { mean: 5e-5, second: 1e-5, exact: false } } else if real { T64R } else { T64 });
         let last = states.last().unwrap().clone();
@@ -907,6 +980,19 @@ pub fn run(em: &mut Em, rng: &mut Rng) {
         op_gnb(em, &h, 1, 0.0);
         let h0: Hist = vec![(vec![vec![], vec![]], vec![0, 1])];
         op_gnb(em, &h0, 0, 0.0);
+    }
+    // multinomial: no error path — histories with empty batches (first, middle, last, several) go through
+    for _ in 0..(if thorough { 200 } else { 40 }) {
+        let n = 2 + rng.below(10);
+        let p = 1 + rng.below(3);
+        let d = mnb_data(rng, n, p);
+        let mut h = mk_hist(&d.0, &d.1, random_mask(rng, n));
+        for _ in 0..1 + rng.below(2) {
+            let at = rng.below(h.len() + 1);
+            h.insert(at, (vec![], vec![]));
+        }
+        em.count("mnb:empty_batch_history");
+        op_mnb(em, &h, p, *rng.pick(&[0.5, 1.0, 2.0]));
     }
 
     km::run(em, rng);
